@@ -25,6 +25,18 @@ type FuncRec struct {
 	Kind   string `json:"kind"`   // func, method-val, method-ptr, generic-func, lit, init, blank, rangefunc-body ...
 	Ctx    string `json:"ctx"`    // where it sits: top, var-init, func>lit, func>rangefunc>lit ...
 	Demand bool   `json:"demand"` // clause (2) demands it (false: blank functions, synthetic range-over-func bodies)
+	// position as relabelled by a preceding //line directive ("" = none): generated code
+	// (goyacc, ragel, templates) reports its functions under the grammar/template file
+	PosAbs  string `json:"pos_file,omitempty"`
+	PosLine int    `json:"pos_line,omitempty"`
+}
+
+// at returns the (canonical file, line) under which the Go tools position the function.
+func (f *FuncRec) at(fileAbs string) (string, int) {
+	if f.PosAbs != "" {
+		return f.PosAbs, f.PosLine
+	}
+	return fileAbs, f.Line
 }
 
 func (f *FuncRec) class() string { return f.Kind + "@" + f.Ctx }
@@ -146,6 +158,19 @@ type src struct {
 	ind  int
 	file *FileRec
 	pkg  *PkgRec
+	// active //line directive: physical line dirAt+1 is line dirBase of dirFile
+	dirFile string
+	dirBase int
+	dirAt   int
+}
+
+// lineDirective relabels everything that follows as <name>:<base>... (name is relative to
+// the directory of the file, as the Go scanner resolves it).
+func (s *src) lineDirective(name string, base int) {
+	s.b.WriteString(fmt.Sprintf("//line %s:%d\n", name, base))
+	s.line++
+	s.dirFile = filepath.Join(filepath.Dir(s.file.Abs), name)
+	s.dirBase, s.dirAt = base, s.line
 }
 
 func (s *src) ln(format string, a ...any) {
@@ -165,6 +190,9 @@ func (s *src) ln(format string, a ...any) {
 func (s *src) fn(kind, ctx string, demand bool, format string, a ...any) *FuncRec {
 	s.ln(format, a...)
 	fr := &FuncRec{Rel: s.file.Rel, Line: s.line, Kind: kind, Ctx: ctx, Demand: demand}
+	if s.dirFile != "" {
+		fr.PosAbs, fr.PosLine = s.dirFile, s.dirBase+(s.line-s.dirAt-1)
+	}
 	s.file.Funcs = append(s.file.Funcs, fr)
 	return fr
 }
@@ -811,7 +839,13 @@ func (g *gen) goodFile(p *PkgRec, base, class string, o fileOpt) *FileRec {
 		s.ln("}")
 		s.ln("")
 	}
+	withDirective := o.ndecl >= 2 && g.r.Intn(4) == 0
 	for i := 0; i < o.ndecl; i++ {
+		if withDirective && i == o.ndecl-1 {
+			// the rest of the file is "generated from" another file
+			s.lineDirective(fmt.Sprintf("grammar%d.y", g.id()), 40+g.r.Intn(500))
+			s.file.NameShape += "+line-directive"
+		}
 		s.decl(g.nextDecl(), 1+g.r.Intn(2))
 	}
 	for _, k := range o.plants {
